@@ -179,6 +179,87 @@ void eval_ld(const EvalC &c, vf::Obs &o) { dispatch<long double>(c, o); }
 #endif
 
 #if PART(0)
+// ---- concurrent evaluation: "for every spline and every x" does not depend on what other threads evaluate at the
+// same time. Several threads evaluate UNRELATED splines (own grid, own object) of the same scalar type and order;
+// every value must equal the exact value of the stored polynomial (Q) / the value a sequential run returns (double).
+// Built with ThreadSanitizer as well: scratch storage shared between calls is reported as a race.
+#include <atomic>
+#include <thread>
+struct MtC {
+  std::vector<EvalC> th;
+  i64 rounds = 50;
+  template <class A>
+  void io(A &a) { a("th", th); a("rounds", rounds); }
+};
+template <class T, size_t order>
+static void eval_points(const EvalC &c, std::vector<T> &xs, std::vector<T> &vals, std::vector<R> *want) {
+  std::vector<T> gv = c.g.values<T>();
+  bspline::support::Grid<T> grid(gv);
+  bspline::support::Support<T> sup0(grid, (size_t)c.s.s, (size_t)c.s.e);
+  std::vector<std::array<T, order + 1>> cof(c.s.nint());
+  for (size_t i = 0; i < cof.size(); i++) for (size_t k = 0; k <= order; k++) cof[i][k] = c.s.coeffT<T>(order, i, k);
+  const bspline::Spline<T, order> sp(sup0, cof);
+  xs.clear();
+  for (size_t j = 0; j + 1 < gv.size(); j++) { xs.push_back(gv[j] + (gv[j + 1] - gv[j]) * mk<T>(c.fnum, c.fden)); xs.push_back(gv[j] + (gv[j + 1] - gv[j]) / mk<T>(3)); }
+  xs.push_back(gv.front() - mk<T>(1)); xs.push_back(gv.back() + mk<T>(1));
+  vals.clear();
+  for (const auto &x : xs) vals.push_back(sp(x));
+  if (want) {
+    ref::Fn model = model_of(c.g, c.s, order);
+    const std::vector<R> pts = c.g.points();
+    want->clear();
+    for (const auto &x : xs) {
+      R xr = exact(x), w(0);
+      for (size_t j = (size_t)c.s.s; j + 1 < (size_t)c.s.e; j++) if (pts[j] <= xr && xr < pts[j + 1]) w = ref::eval(model.piece[j], xr);
+      want->push_back(w);
+    }
+  }
+}
+template <class T>
+static void run_mt(const MtC &c, vf::Obs &o) {
+  const size_t nt = c.th.size();
+  const size_t ord = (size_t)std::min<i64>(std::max<i64>(c.th[0].order, 0), 3);
+  std::vector<std::vector<T>> got(nt);
+  std::vector<int> bad(nt, 0);
+  std::atomic<size_t> ready{0};
+  std::atomic<bool> go{false};
+  const i64 rounds = std::max<i64>(1, std::min<i64>(c.rounds, 400));
+  std::vector<std::thread> th;
+  for (size_t t = 0; t < nt; t++)
+    th.emplace_back([&, t] {
+      ready.fetch_add(1);
+      while (!go.load(std::memory_order_acquire)) { }
+      std::vector<T> xs, v, first;
+      for (i64 r = 0; r < rounds; r++) {
+        with_order<3>(ord, [&](auto O) { eval_points<T, decltype(O)::value>(c.th[t], xs, v, nullptr); });
+        if (r == 0) first = v;
+        else for (size_t k = 0; k < v.size(); k++) if (!(v[k] == first[k])) bad[t] = 1;
+      }
+      got[t] = first;
+    });
+  while (ready.load() < nt) std::this_thread::yield();
+  go.store(true, std::memory_order_release);
+  for (auto &x : th) x.join();
+  for (size_t t = 0; t < nt; t++) {
+    VCHECK(o, !bad[t], "thread " << t << ": repeated evaluations of one spline at one abscissa returned different values while other threads were evaluating their own splines");
+    std::vector<T> xs, v;
+    std::vector<R> want;
+    with_order<3>(ord, [&](auto O) { eval_points<T, decltype(O)::value>(c.th[t], xs, v, &want); });  // sequential, afterwards
+    VCHECK(o, v.size() == got[t].size(), "thread " << t << ": wrong number of values");
+    for (size_t k = 0; k < v.size(); k++) {
+      VCHECK(o, got[t][k] == v[k], "thread " << t << ": value at abscissa " << k << " obtained concurrently differs from the sequential evaluation");
+      if constexpr (std::is_same_v<T, Q>) VCHECK(o, exact(got[t][k]) == want[k], "thread " << t << ": value at abscissa " << k << " is not the value of the stored polynomial (" << rstr(exact(got[t][k])) << " instead of " << rstr(want[k]) << ")");
+    }
+  }
+}
+static void check_mt(const MtC &c, vf::Obs &o) {
+  if (c.th.empty()) { o.discard("no threads"); return; }
+  o.cls("threads:" + std::to_string(c.th.size()));
+  o.cls(c.th[0].type == 0 ? "type:Q" : "type:double");
+  o.nt(c.th.size() >= 2);
+  if (c.th[0].type == 0) run_mt<Q>(c, o); else run_mt<double>(c, o);
+}
+
 static void check_eval(const EvalC &c, vf::Obs &o) {
   switch (c.type) {
     case 1: eval_f(c, o); break;
@@ -214,6 +295,26 @@ int main(int argc, char **argv) {
   };
   vf::add_sub<EvalC>("eval-exact", 2500, gen(true), check_eval);
   vf::add_sub<EvalC>("eval-float", 2500, gen(false), check_eval);
+  auto gen_mt = rc::gen::exec([] {
+    MtC c;
+    const bool exact_only = chance(60);
+    const i64 order = pick(0, 3);  // all threads use the same scalar type and order: the same template instantiations
+    int nt = (int)one_of<i64>({2, 2, 3, 4, 8});
+    for (int t = 0; t < nt; t++) {
+      EvalC e;
+      e.type = exact_only ? 0 : 2;
+      GridOpt go; go.dyadic = !exact_only; go.max_abs = 8;
+      e.g = gen_grid(go);
+      e.order = order;
+      CoefOpt co; co.dyadic = !exact_only;
+      e.s = gen_spline(e.g.n(), (size_t)order, chance(60) ? W_WHOLE : W_GENERAL, co);
+      e.fden = one_of<i64>({2, 4, 8}); e.fnum = pick(1, e.fden - 1);
+      c.th.push_back(e);
+    }
+    c.rounds = pick(20, 200);
+    return c;
+  });
+  vf::add_sub<MtC>("eval-concurrent", 60, gen_mt, check_mt);
   return vf::main_impl(argc, argv, "C02");
 }
 #endif
